@@ -77,6 +77,30 @@ def main_(seed, nscen):
             sis = [bytes([65 + i]) * 16 for i in range(3)]
             msis = [bytes([97 + i]) * 16 for i in range(2)]
             uploads = {}       # (si, sh) -> {"size", "secret", "bw", "ref"}
+            # plain models the DIRECT server is compared with (C22, C23, C24, C28): visible immutable shares, bytes written so far by
+            # uploads in progress, mutable slots as byte arrays with the write enabler that created them
+            m_visible, m_written, m_slots, m_enabler = {}, {}, {}, {}
+
+            def model_differs(what):
+                report["problems"].append({"kind": "model_differs", "history": history[-10:], "what": what})
+
+            def check_model():
+                sa = state(A)
+                for si_ in sis:
+                    want = dict((sh_, v) for (s2, sh_), v in m_visible.items() if s2 == si_)
+                    if sa[("imm", si_)] != want:
+                        model_differs("immutable storage index %s offers shares %r, the model has %r" % (si_[:1].decode(), dict((k_, len(v)) for k_, v in sa[("imm", si_)].items()), dict((k_, len(v)) for k_, v in want.items())))
+                        return False
+                reserved = sum(u_["size"] for u_ in uploads.values())
+                if sa["reserved"] != reserved:
+                    model_differs("the server reserves %d bytes for uploads in progress, the model says %d" % (sa["reserved"], reserved))
+                    return False
+                for si_ in msis:
+                    want = dict((sh_, bytes(v)) for (s2, sh_), v in m_slots.items() if s2 == si_)
+                    if sa[("mut", si_)] != want:
+                        model_differs("mutable slot %s holds %r, the model has %r" % (si_[:1].decode(), dict((k_, len(v)) for k_, v in sa[("mut", si_)].items()), dict((k_, len(v)) for k_, v in want.items())))
+                        return False
+                return True
             refdata = {}       # (si, sh) -> the bytes this share is meant to hold
             history = []
 
@@ -115,9 +139,15 @@ def main_(seed, nscen):
                     if set(rb[1].already_have) != set(already) or set(rb[1].allocated) != set(writers):
                         differ("create", "direct: already=%r allocated=%r; HTTP: already=%r allocated=%r" % (sorted(already), sorted(writers), sorted(rb[1].already_have), sorted(rb[1].allocated)))
                         return
+                    want_already = set(sh_ for (s2, sh_) in m_visible if s2 == si)      # every share of this storage index the server holds, asked for or not
+                    want_new = set(sh for sh in shnums if (si, sh) not in m_visible and (si, sh) not in uploads)
+                    if set(already) != want_already or set(writers) != want_new:
+                        model_differs("allocate_buckets(%r) answered already=%r new=%r; the model expects already=%r new=%r" % (sorted(shnums), sorted(already), sorted(writers), sorted(want_already), sorted(want_new)))
+                        return
                     for sh, bw in writers.items():
                         uploads[(si, sh)] = {"size": size, "secret": secret, "bw": bw}
                         refdata[(si, sh)] = bytes(rng.randrange(256) for _ in range(size))
+                        m_written[(si, sh)] = [bytearray(size), [False] * size]
                 elif op == "write" and uploads:
                     key = rng.choice(sorted(uploads))
                     u = uploads[key]
@@ -137,6 +167,13 @@ def main_(seed, nscen):
                     if not data:
                         continue
                     history.append(["write", si.decode(), sh, off, len(data), kind])
+                    buf, mask = m_written[key]
+                    if any(off + j < u["size"] and mask[off + j] and buf[off + j] != data[j] for j in range(len(data))):
+                        m_expect = "conflict"           # looked for first, over the part that overlaps what is already there
+                    elif off + len(data) > u["size"]:
+                        m_expect = "too-large"
+                    else:
+                        m_expect = "ok"
                     try:
                         fin = u["bw"].write(off, data)
                         ra = ("ok", fin)
@@ -155,6 +192,19 @@ def main_(seed, nscen):
                             note("write rejected by the direct server with %s is answered HTTP %d" % (ra[0], rb[1]))
                     else:
                         rbn = rb
+                    if ra[0] != m_expect:
+                        model_differs("write of %d bytes at %d into a %d-byte share: the server says %r, the byte-array model says %r" % (len(data), off, u["size"], ra[0], m_expect))
+                        return
+                    if ra[0] == "ok":
+                        for j in range(len(data)):
+                            buf[off + j] = data[j]
+                            mask[off + j] = True
+                        if ra[1] != all(mask):
+                            model_differs("write reported finished=%s, the model has %d of %d bytes written" % (ra[1], sum(mask), len(mask)))
+                            return
+                        if ra[1]:
+                            m_visible[key] = bytes(buf)
+                            del m_written[key]
                     if ra[0] in ("conflict", "too-large"):
                         ra = ("rejected", None)
                     if ra != rbn:
@@ -165,6 +215,7 @@ def main_(seed, nscen):
                 elif op == "abort" and uploads:
                     key = rng.choice(sorted(uploads))
                     u = uploads.pop(key)
+                    m_written.pop(key, None)
                     history.append(["abort", key[0].decode(), key[1]])
                     u["bw"].abort()
                     rb = via_http(im.abort_upload(key[0], key[1], u["secret"]))
@@ -175,12 +226,17 @@ def main_(seed, nscen):
                     history.append(["31 minutes pass"])
                     clock.advance(31 * 60)
                     uploads.clear()
+                    m_written.clear()
                 elif op == "read":
                     si, sh = rng.choice(sis), rng.randrange(4)
                     off, ln = rng.choice([0, 1, 50, 999, 1000, 5000]), rng.choice([1, 10, 1000, 100000])
                     history.append(["read", si.decode(), sh, off, ln])
                     bs = A.get_buckets(si)
                     ra = ("ok", bs[sh].read(off, ln)) if sh in bs else ("missing", None)
+                    m_ra = ("ok", m_visible[(si, sh)][off:off + ln]) if (si, sh) in m_visible else ("missing", None)
+                    if ra != m_ra:
+                        model_differs("read(%d, %d) of share %d: the server returns %r, the model %r" % (off, ln, sh, (ra[0], len(ra[1] or b"")), (m_ra[0], len(m_ra[1] or b""))))
+                        return
                     rb = via_http(im.read_share_chunk(si, sh, off, ln))
                     if rb == ("http-error", 404):
                         rb = ("missing", None)
@@ -233,6 +289,38 @@ def main_(seed, nscen):
                         ra = ("ok", ok, dict((k_, list(v)) for k_, v in reads.items()))
                     except BadWriteEnablerError:
                         ra = ("bad-enabler",)
+                    # --- the byte-array model of read-test-write
+                    existing = dict((sh_, v) for (s2, sh_), v in m_slots.items() if s2 == si)
+                    if any(m_enabler[(si, sh_)] != we for sh_ in existing):
+                        m_ra = ("bad-enabler",)
+                    else:
+                        tests_ok = all(bytes(existing.get(sh_, b""))[o:o + l_] == s_ for sh_, (tv, wv, nl) in tw_direct.items() for (o, l_, op_, s_) in tv)
+                        reads_m = dict((sh_, [bytes(v)[o:o + l_] for (o, l_) in rv]) for sh_, v in existing.items())
+                        m_ra = ("ok", tests_ok, reads_m)
+                        if tests_ok:
+                            for sh_, (tv, wv, nl) in tw_direct.items():
+                                if nl == 0:
+                                    m_slots.pop((si, sh_), None)
+                                    m_enabler.pop((si, sh_), None)
+                                    continue
+                                if (si, sh_) not in m_slots:
+                                    m_slots[(si, sh_)] = bytearray()
+                                    m_enabler[(si, sh_)] = we
+                                b_ = m_slots[(si, sh_)]
+                                for (o, d_) in wv:
+                                    if o + len(d_) >= len(b_):
+                                        if o > len(b_):
+                                            b_.extend(b"\x00" * (o - len(b_)))
+                                        del b_[o:]
+                                        b_.extend(b"\x00" * 0)
+                                        b_.extend(d_)
+                                    else:
+                                        b_[o:o + len(d_)] = d_
+                                if nl is not None and nl < len(b_):
+                                    del b_[nl:]
+                    if ra != m_ra:
+                        model_differs("read-test-write: the server answers %r, the byte-array model %r" % (ra if len(str(ra)) < 300 else str(ra)[:300], m_ra if len(str(m_ra)) < 300 else str(m_ra)[:300]))
+                        return
                     rb = via_http(mu.read_test_write_chunks(si, we, renew, b"c" * 32, tw_http, [ReadVector(offset=o, size=l_) for (o, l_) in rv]))
                     if rb[0] == "ok":
                         rbn = ("ok", rb[1].success, dict((k_, list(v)) for k_, v in rb[1].reads.items()))
@@ -321,6 +409,8 @@ def main_(seed, nscen):
                     continue
                 else:
                     continue
+                if not check_model():
+                    return
                 sa, sb = state(A), state(B)
                 if sa != sb:
                     keys = [k_ for k_ in sa if sa[k_] != sb.get(k_)]
@@ -345,6 +435,10 @@ BOUND = ("HTTP-versus-direct twin-server histories (real StorageServer x2, real 
          "read-test-write with matching/failing test vectors, truncation, deletion and wrong write enabler, mutable reads -- interleaved with requests that must be refused: every endpoint with a wrong swissnum, "
          "write/abort with a made-up secret or with the secret of another upload in progress, requests with one secret header missing")
 KINDS = {
+    "C22": (("model_differs",), "the-direct-server-behaves-like-the-byte-array-model-visibility-exact-reads-conflicts-aborts-timeouts-reservations"),
+    "C23": (("model_differs",), "mutable-slots-behave-like-growable-byte-arrays-under-read-test-write-histories"),
+    "C24": (("model_differs",), "read-test-write-is-all-or-nothing-guarded-by-the-write-enabler-reads-show-the-state-before"),
+    "C28": (("model_differs",), "space-reserved-for-uploads-in-progress-is-exactly-their-allocated-sizes-and-is-released-on-close-abort-timeout"),
     "C31": (("differs",), "the-HTTP-path-and-the-direct-path-give-the-same-results-and-leave-the-same-server-state"),
     "C30": (("not_refused", "refused_but_changed_state"), "requests-without-the-right-swissnum-or-secret-are-refused-and-change-nothing"),
 }
